@@ -384,6 +384,29 @@ for _n in ('floor', 'ceil'):
     EXTERNAL.setdefault('math.' + _n, Builtin('math.' + _n, _floor_ceil(_n)))
 
 
+def _np_isclose_scalar(it, args, kw):
+    """numpy.isclose(a, b, rtol=1e-05, atol=1e-08, equal_nan=False) on scalars: |a-b| <= atol + rtol*|b| over the reals"""
+    from fractions import Fraction
+    a, b = args[0], args[1]
+    rtol = args[2] if len(args) > 2 else kw.get('rtol', 1e-05)
+    atol = args[3] if len(args) > 3 else kw.get('atol', 1e-08)
+    if kw.get('equal_nan') or any(z3.is_expr(x) for x in (rtol, atol)):
+        raise Unsupported('numpy.isclose with equal_nan / symbolic tolerances')
+    for x in (a, b):
+        if not (isinstance(x, (bool, int, float)) or (z3.is_expr(x) and x.sort() in (z3.BoolSort(), z3.IntSort(), xreal.XReal))):
+            raise Unsupported('numpy.isclose(%r)' % (x,))
+    xa, xb = xreal.lift(a), xreal.lift(b)
+    ra, rb = xreal.r(xa), xreal.r(xb)
+    ab = lambda t: z3.If(t >= 0, t, -t)
+    q = lambda f: z3.RealVal(str(Fraction(f)))
+    return z3.If(z3.And(xreal.is_fin(xa), xreal.is_fin(xb)), ab(ra - rb) <= q(atol) + q(rtol) * ab(rb),
+                 z3.And(z3.Not(xreal.is_nan(xa)), xa == xb))
+
+
+for _n in ('numpy.isclose', 'np.isclose'):
+    EXTERNAL.setdefault(_n, Builtin('numpy.isclose', _np_isclose_scalar))
+
+
 EXTERNAL['math.isclose'] = Builtin('math.isclose', _isclose)
 
 
